@@ -126,11 +126,11 @@ func ParseHeader(d Draft, v string) ([]byte, bool) {
 
 // Result of the verifying prefix decoder.
 type Result struct {
-	HeaderOK   bool   // record-size header present and 1 <= rs <= maxRS
-	RS         uint64 // parsed record size (if 8 bytes were present)
-	Prefix     []byte // longest authenticated prefix of the committed payload
-	Complete   bool   // the whole stream authenticates as a complete payload
-	Frames     []Frame
+	HeaderOK bool   // record-size header present and 1 <= rs <= maxRS
+	RS       uint64 // parsed record size (if 8 bytes were present)
+	Prefix   []byte // longest authenticated prefix of the committed payload
+	Complete bool   // the whole stream authenticates as a complete payload
+	Frames   []Frame
 }
 
 // Frame locates one record (and the proof that follows it) in the stream.
